@@ -172,6 +172,95 @@ func c15RoundTrips(c *vfeng.Ctx) {
 	}
 }
 
+// ---- (a'') a fault at every SQL operation of a profile save, a profile delete and
+// a signed-record upsert on the primary: "saved" must mean stored.  If the call
+// reports success the new content is read back; if it reports failure the store
+// holds the previous or the new content, never something else.
+func c15WriteFaults(c *vfeng.Ctx) {
+	type wr struct {
+		name string
+		prep func(st *RuntimeState)
+		do   func(st *RuntimeState) error
+		// digests of the store before and after a successful run are taken by the check
+	}
+	mkProfile := func(tag string) *userProfile {
+		return &userProfile{U2fAuthData: map[int64]*u2fAuthData{}, TOTPAuthData: map[int64]*totpAuthData{}, DisplayName: tag, Username: "wf-user"}
+	}
+	writes := []wr{
+		{"SaveUserProfile", func(st *RuntimeState) { vfMust(st.SaveUserProfile("wf-user", mkProfile("old"))) }, func(st *RuntimeState) error { return st.SaveUserProfile("wf-user", mkProfile("new")) }},
+		{"SaveUserProfile-new-user", func(st *RuntimeState) {}, func(st *RuntimeState) error { return st.SaveUserProfile("wf-user", mkProfile("new")) }},
+		{"DeleteUserProfile", func(st *RuntimeState) { vfMust(st.SaveUserProfile("wf-user", mkProfile("old"))) }, func(st *RuntimeState) error { return st.DeleteUserProfile("wf-user") }},
+		{"UpsertSigned", func(st *RuntimeState) { vfMust(st.UpsertSigned("wf-user", 3, vclock.Now().Unix()+3600, "old")) }, func(st *RuntimeState) error { return st.UpsertSigned("wf-user", 3, vclock.Now().Unix()+3600, "new") }},
+		{"DeleteSigned", func(st *RuntimeState) { vfMust(st.UpsertSigned("wf-user", 3, vclock.Now().Unix()+3600, "old")) }, func(st *RuntimeState) error { return st.DeleteSigned("wf-user", 3) }},
+	}
+	semantic := func(w *vfWorld) string {
+		// what the store says, independent of signatures and salts: profile display name, signed payload
+		db, err := sql.Open("sqlite3", filepath.Join(w.dir, profileDBFilename))
+		if err != nil {
+			return "?"
+		}
+		defer db.Close()
+		out := ""
+		var blob []byte
+		if db.QueryRow("select profile_data from user_profile where username='wf-user'").Scan(&blob) == nil {
+			var p userProfile
+			if gob.NewDecoder(bytes.NewReader(blob)).Decode(&p) == nil {
+				out += "profile=" + p.DisplayName
+			} else {
+				out += "profile=<undecodable>"
+			}
+		} else {
+			out += "profile=-"
+		}
+		var jws string
+		if db.QueryRow("select jws_data from expiring_signed_user_data where username='wf-user' and type=3").Scan(&jws) == nil {
+			_, cl, _, _ := c04Split(jws)
+			out += fmt.Sprint(" signed=", cl["data"])
+		} else {
+			out += " signed=-"
+		}
+		return out
+	}
+	for _, wrt := range writes {
+		// reference: before and after a fault-free run, and the number of operations
+		w := vfNewWorld(vfOpts{CertBackends: []string{"password"}, WebUIBackends: []string{"password"}})
+		wrt.prep(w.state)
+		before := semantic(w)
+		vfFaultArm("primary", 0, "")
+		if err := wrt.do(w.state); err != nil {
+			c.Violate("C15|write|"+wrt.name+"|fails-without-fault", err.Error(), map[string]string{"part": "write-faults", "write": wrt.name})
+			w.Close()
+			continue
+		}
+		nOps, log := vfFaultCount("primary")
+		after := semantic(w)
+		w.Close()
+		for k := 1; k <= nOps; k++ {
+			w := vfNewWorld(vfOpts{CertBackends: []string{"password"}, WebUIBackends: []string{"password"}})
+			wrt.prep(w.state)
+			vfFaultArm("primary", k, "error")
+			err := wrt.do(w.state)
+			vfFaultArm("primary", 0, "")
+			got := semantic(w)
+			w.Close()
+			c.Eval(1)
+			op := "?"
+			if k-1 < len(log) {
+				op = log[k-1]
+			}
+			pt := map[string]string{"part": "write-faults", "write": wrt.name, "op": fmt.Sprint(k)}
+			switch {
+			case err == nil && got != after:
+				c.Violate("C15|write|"+wrt.name+"|acknowledged-but-not-stored", fmt.Sprintf("operation %d (%s) of %s failed on the primary; the call reported success but the store says %q (before %q, intended %q)", k, op, wrt.name, got, before, after), pt)
+			case err != nil && got != before && got != after:
+				c.Violate("C15|write|"+wrt.name+"|mixture-after-failed-write", fmt.Sprintf("operation %d (%s) of %s failed; the store says %q, neither the previous %q nor the new %q", k, op, wrt.name, got, before, after), pt)
+			default:
+				c.Class(fmt.Sprintf("write-fault|%s|err=%v|stored=%v", wrt.name, err != nil, got == after), pt)
+			}
+		}
+	}
+}
+
 // ---- (b) histories + (c) faults
 
 type c15Sys struct {
@@ -543,7 +632,7 @@ func init() {
 	vfRegister(&vfeng.Check{
 		ID:    "C15",
 		Level: "fault_enumeration",
-		Rule:  "(a) every profile shape (empty, nil/empty maps, 1-3 U2F registrations with real attestation certificates, TOTP entries, pending registration/TOTP secret, bootstrap OTP, WebAuthn credential + session data, 10 kB display name) saved, read back from the primary, synchronised and read back from the cache during an outage; (b) BFS with canonical-state deduplication over {save/delete user, upsert/delete signed record, tick 97h, sync} for two users on the real storage functions, comparing cache and primary after every completed synchronisation; (c) for every synchronisation reached at history depth <= 3 (thorough 4): a fault (error, and crash = connection abort + reopen) injected at EVERY SQL operation of copyDBIntoSQLite on the source and on the destination connection - cache content must equal the previous or the complete new content; (d) every route x {GET,POST} with an admitted credential against a healthy twin, a twin whose primary is unreachable and a twin whose primary does not answer reads but takes writes (outage ending inside the request), and for authentication routes a twin whose primary refuses every operation at once with the production read timeout (virtual time advanced while the request waits); plus deployments with self-service bootstrap OTP: login of a user with/without devices via form and basic-auth in the three modes, with a recording mail sender (differential oracle)",
+		Rule:  "(a'') an error injected at EVERY SQL operation of SaveUserProfile (existing and new user), DeleteUserProfile, UpsertSigned and DeleteSigned on the primary: success reported => new content stored, failure => previous or new content; (a) every profile shape (empty, nil/empty maps, 1-3 U2F registrations with real attestation certificates, TOTP entries, pending registration/TOTP secret, bootstrap OTP, WebAuthn credential + session data, 10 kB display name) saved, read back from the primary, synchronised and read back from the cache during an outage; (b) BFS with canonical-state deduplication over {save/delete user, upsert/delete signed record, tick 97h, sync} for two users on the real storage functions, comparing cache and primary after every completed synchronisation; (c) for every synchronisation reached at history depth <= 3 (thorough 4): a fault (error, and crash = connection abort + reopen) injected at EVERY SQL operation of copyDBIntoSQLite on the source and on the destination connection - cache content must equal the previous or the complete new content; (d) every route x {GET,POST} with an admitted credential against a healthy twin, a twin whose primary is unreachable and a twin whose primary does not answer reads but takes writes (outage ending inside the request), and for authentication routes a twin whose primary refuses every operation at once with the production read timeout (virtual time advanced while the request waits); plus deployments with self-service bootstrap OTP: login of a user with/without devices via form and basic-auth in the three modes, with a recording mail sender (differential oracle)",
 		Assumptions: []string{"only the sqlite flavour of the storage layer is executed (no PostgreSQL in the sandbox)", "a crash is modelled as loss of the connection's uncommitted work followed by reopening the files; sqlite's own atomic-commit machinery is trusted", "an outage is modelled as in the repository's own tests: the primary's read timeout has already elapsed (remoteDBQueryTimeout=0) and every statement on it fails"},
 		Bounds: func(tier string) map[string]interface{} {
 			d, fd := 4, 3
@@ -560,6 +649,7 @@ func init() {
 			}
 			if c.Shard == 0 {
 				c15RoundTrips(c)
+				c15WriteFaults(c)
 				c15Outage(c)
 				c15OutageSelfService(c)
 				if c.NShards > 1 {
@@ -583,6 +673,7 @@ func init() {
 			}
 			cc := &vfeng.Ctx{Res: &vfeng.Result{Classes: map[string]json.RawMessage{}, ClassCount: map[string]int64{}, Counters: map[string]int64{}, Sets: map[string][]string{}}}
 			c15RoundTrips(cc)
+			c15WriteFaults(cc)
 			c15Outage(cc)
 			c15OutageSelfService(cc)
 			if len(cc.Res.Violations) > 0 {
